@@ -225,13 +225,17 @@ func New(seed uint64, adj [][]bool) (*Net, error) {
 	return net, nil
 }
 
+// Close stops the services.  Kad.Close waits 5 s for a manage loop that was never started
+// (kademlia.Start is not called: the topology is set by Connected), so it runs in the background.
 func (n *Net) Close() {
 	n.cancel()
 	for _, nd := range n.Nodes {
-		_ = nd.Kad.Close()
-		for _, c := range nd.closers {
-			_ = c.Close()
-		}
+		go func(nd *Node) {
+			_ = nd.Kad.Close()
+			for _, c := range nd.closers {
+				_ = c.Close()
+			}
+		}(nd)
 	}
 }
 
